@@ -170,6 +170,8 @@ fn div_rem(mut u: BigUint, mut d: BigUint) -> (BigUint, BigUint) {
         if d.data == [1] {
             return (u, BigUint::ZERO);
         }
+        #[cfg(num_bigint_verif)]
+        crate::verif_probe::hit(crate::verif_probe::Probe::DIV_SINGLE);
         let (div, rem) = div_rem_digit(u, d.data[0]);
         // reuse d
         d.data.clear();
@@ -217,6 +219,8 @@ pub(super) fn div_rem_ref(u: &BigUint, d: &BigUint) -> (BigUint, BigUint) {
         if d.data == [1] {
             return (u.clone(), BigUint::ZERO);
         }
+        #[cfg(num_bigint_verif)]
+        crate::verif_probe::hit(crate::verif_probe::Probe::DIV_SINGLE);
 
         let (div, rem) = div_rem_digit(u.clone(), d.data[0]);
         return (div, rem.into());
@@ -277,6 +281,8 @@ fn div_rem_core(mut a: BigUint, b: &[BigDigit]) -> (BigUint, BigUint) {
     let b0 = b[b.len() - 1];
     let b1 = b[b.len() - 2];
 
+    #[cfg(num_bigint_verif)]
+    crate::verif_probe::add(crate::verif_probe::Probe::DIV_SHIFT, (1) as u64);
     let q_len = a.data.len() - b.len() + 1;
     let mut q = BigUint {
         data: vec![0; q_len],
@@ -285,6 +291,8 @@ fn div_rem_core(mut a: BigUint, b: &[BigDigit]) -> (BigUint, BigUint) {
     for j in (0..q_len).rev() {
         debug_assert!(a.data.len() == b.len() + j);
 
+        #[cfg(num_bigint_verif)]
+        crate::verif_probe::hit(crate::verif_probe::Probe::DIVCORE_ITER);
         let a1 = *a.data.last().unwrap();
         let a2 = a.data[a.data.len() - 2];
 
@@ -295,6 +303,8 @@ fn div_rem_core(mut a: BigUint, b: &[BigDigit]) -> (BigUint, BigUint) {
             (q0, r as DoubleBigDigit)
         } else {
             debug_assert!(a0 == b0);
+            #[cfg(num_bigint_verif)]
+            crate::verif_probe::hit(crate::verif_probe::Probe::DIVCORE_A0_EQ_B0);
             // Avoid overflowing q0, we know the quotient fits in BigDigit.
             // [a1,a0] = b0 * (1<<BITS - 1) + (a0 + a1)
             (big_digit::MAX, a0 as DoubleBigDigit + a1 as DoubleBigDigit)
@@ -314,6 +324,8 @@ fn div_rem_core(mut a: BigUint, b: &[BigDigit]) -> (BigUint, BigUint) {
         {
             q0 -= 1;
             r += b0 as DoubleBigDigit;
+            #[cfg(num_bigint_verif)]
+            crate::verif_probe::hit(crate::verif_probe::Probe::DIVCORE_REFINE);
         }
 
         // q0 is now either the correct quotient digit, or in rare cases 1 too large.
@@ -322,6 +334,8 @@ fn div_rem_core(mut a: BigUint, b: &[BigDigit]) -> (BigUint, BigUint) {
         let mut borrow = sub_mul_digit_same_len(&mut a.data[j..], b, q0);
         if borrow > a0 {
             // q0 is too large. We need to add back one multiple of b.
+            #[cfg(num_bigint_verif)]
+            crate::verif_probe::hit(crate::verif_probe::Probe::DIVCORE_ADDBACK);
             q0 -= 1;
             borrow -= __add2(&mut a.data[j..], b);
         }
